@@ -94,6 +94,10 @@ void QXmppIq::parseElementFromChild(const QDomElement &element)
     QXmppElementList extensions;
 
     for (const auto &itemElement : iterChildElements(element)) {
+        // <error/> is parsed by QXmppStanza::parse() and written by toXml() itself
+        if (itemElement.tagName() == u"error") {
+            continue;
+        }
         extensions.append(QXmppElement(itemElement));
     }
     setExtensions(extensions);
